@@ -3,9 +3,11 @@ package catalogue
 import (
 	"verif/txs/gov"
 	"verif/txs/stk"
+	"verif/txs/xch"
 )
 
 func init() {
 	Register(gov.Scenarios)
 	Register(stk.Scenarios)
+	Register(xch.Scenarios)
 }
